@@ -59,6 +59,7 @@ SameTree(a, b) ==      \* a: specification tree, b: recorded (normalised) tree
 SameVars(c, j) ==       \* j: recorded projection [nb, vars: seq of [n, v], funcs: seq of names]
   /\ c.nb = j.nb
   /\ DOMAIN c.vars = {j.vars[i].n : i \in 1..Len(j.vars)}
+  /\ \A i, k \in 1..Len(j.vars) : j.vars[i].n = j.vars[k].n => i = k          \* "exactly the bound names": none listed twice
   /\ \A i \in 1..Len(j.vars) : SameValue(c.vars[j.vars[i].n], j.vars[i].v)
   /\ DOMAIN c.funcs = {j.funcs[i] : i \in 1..Len(j.funcs)}
 SameLog(lg, j) == /\ Len(lg) = Len(j)
